@@ -43,10 +43,10 @@ SPEC = {
          "mode": "exh", "cases": {"quick": EXH_CASES, "thorough": EXH_CASES},
          "params": {"p0": DEPTH, "p1": PREFIX, "p3": 1}, "budget": 60},
         {"name": "asan", "harness": "c10_cache", "srcs": ["harness/c10_cache.c"], "flavour": "asan",
-         "mode": "rand", "cases": {"quick": 48000, "thorough": 1600000},
+         "mode": "rand", "cases": {"quick": 32000, "thorough": 1600000},
          "params": {"p2": 64}, "budget": 30},
         {"name": "heap", "harness": "c10_cache", "srcs": ["harness/c10_cache.c"], "flavour": "plain", "heap": True,
-         "mode": "rand", "cases": {"quick": 32000, "thorough": 800000}, "budget": 30},
+         "mode": "rand", "cases": {"quick": 16000, "thorough": 800000}, "budget": 30},
     ],
     "custom": _custom,
     "min_distinct": 150,
